@@ -31,7 +31,7 @@ func (g *G) Expr(t string, d int) string {
 	}
 	switch t {
 	case "int":
-		switch g.r.Intn(16) {
+		switch g.r.Intn(18) {
 		case 0, 1:
 			return g.leaf(t)
 		case 2, 3:
@@ -68,6 +68,10 @@ func (g *G) Expr(t string, d int) string {
 				return g.leaf(t)
 			}
 			return g.kindCall()
+		case 15:
+			// typed maps: a missing key (and every key of the nil map) reads as 0
+			return g.pick("MI.a", "MI.zz", "MI?.b", `MI["abc"]`, `(MI["zz"] + 1)`, "MN.a", `MN["k"]`, "MN?.a", "len(MI)", "len(MS)", "len(MN)",
+				fmt.Sprintf("MI[%s]", g.Expr("string", d-1)), fmt.Sprintf("(MI[%s] %s %s)", g.Expr("string", d-1), g.pick("+", "*", "-"), g.Expr("int", d-1)))
 		default:
 			return g.leaf(t)
 		}
@@ -88,7 +92,7 @@ func (g *G) Expr(t string, d int) string {
 			return g.leaf(t)
 		}
 	case "string":
-		switch g.r.Intn(9) {
+		switch g.r.Intn(10) {
 		case 0:
 			return fmt.Sprintf("(%s + %s)", g.Expr("string", d-1), g.Expr("string", d-1))
 		case 1:
@@ -109,11 +113,15 @@ func (g *G) Expr(t string, d int) string {
 				return "#"
 			}
 			return g.leaf(t)
+		case 7:
+			// map[string]string: a missing key reads as ""
+			return g.pick("MS.a", "MS.zz", "MS?.abc", `MS["b"]`, "(MS[S] + T)", fmt.Sprintf("MS[%s]", g.Expr("string", d-1)),
+				fmt.Sprintf("(MS[%s] + %s)", g.Expr("string", d-1), g.Expr("string", d-1)))
 		default:
 			return g.leaf(t)
 		}
 	case "bool":
-		switch g.r.Intn(22) {
+		switch g.r.Intn(24) {
 		case 0:
 			return fmt.Sprintf("(%s %s %s)", g.Expr("bool", d-1), g.pick("and", "or", "&&", "||"), g.Expr("bool", d-1))
 		case 1:
@@ -153,6 +161,12 @@ func (g *G) Expr(t string, d int) string {
 			return fmt.Sprintf("(%s == %s)", g.Expr("ints", d-1), g.Expr("ints", d-1))
 		case 16:
 			return fmt.Sprintf("(%s in [%s, %s])", g.Expr("int", d-1), g.leaf("intlit"), g.leaf("intlit"))
+		case 17:
+			return fmt.Sprintf("(%s %s %s)", g.Expr("string", d-1), g.pick("in", "not in"), g.pick("MI", "MS", "MN"))
+		case 18:
+			return g.pick("(MI == MI)", "(MI == MN)", "(MN == nil)", "(MI == nil)", "(MN == Z)", "(MI != MS)", "(MS == M)", "(MS == MS)", "(MI.zz == 0)", `(MS.zz == "")`,
+				"(MI.zz == nil)", "(MN.a == 0)", fmt.Sprintf("(MI[%s] == %s)", g.Expr("string", d-1), g.Expr("int", d-1)),
+				fmt.Sprintf("(MS[%s] == %s)", g.Expr("string", d-1), g.Expr("string", d-1)), fmt.Sprintf("(MI[%s] < %s)", g.Expr("string", d-1), g.Expr("int", d-1)))
 		default:
 			return g.leaf(t)
 		}
@@ -228,7 +242,7 @@ func (g *G) Expr(t string, d int) string {
 		case 6:
 			if g.r.Intn(2) == 0 {
 				// nil-safe method call on a receiver that is nil at run time (arguments are still evaluated)
-				return g.pick(fmt.Sprintf("Z?.Foo(%s)", g.Expr("int", d-1)), "Z?.Bar()", fmt.Sprintf("M.n?.Foo(%s, %s)", g.Expr("int", d-1), g.Expr("string", d-1)), "M?.zz?.Foo(1)")
+				return g.pick(fmt.Sprintf("Z?.Foo(%s)", g.Expr("int", d-1)), "Z?.Bar()", fmt.Sprintf("M.n?.Foo(%s, %s)", g.Expr("int", d-1), g.Expr("string", d-1)), "M?.zz?.Foo(1)", "MN?.Foo(1)", "MI?.zz?.Foo()", "MI.a(1)")
 			}
 			return fmt.Sprintf("(%s ?: %s)", g.Expr("bool", d-1), g.Expr("int", d-1))
 		default:
@@ -290,13 +304,12 @@ func (g *G) leaf(t string) string {
 	case "anys":
 		return g.pick("Anys", "Anys", `[1, "a", true]`, "[nil, 1.5]")
 	case "any":
-		return g.pick("Z", "nil", "M", "Sub", "P", "I", "S", "Anys")
+		return g.pick("Z", "nil", "M", "Sub", "P", "I", "S", "Anys", "MI", "MS", "MN")
 	}
 	return "nil"
 }
 
 var genTypes = []string{"int", "float", "string", "bool", "ints", "strs", "anys", "any"}
-
 
 // kindCall: an integer literal (or literal arithmetic) handed to a parameter of another numeric kind - the checker
 // retypes the literal, the compiler pushes it at that kind, the optimizer must leave it alone.
